@@ -18,7 +18,7 @@ BOUNDS = {
     "thorough": "(1) 4 free characters; (2a) 4 free characters; (2b) 16 layouts, runs of 1-3 characters, second line added",
 }
 OUTSIDE = "tabs that are not structural (inside text); more than three container segments; blank runs wider than 4 columns (statement bound)"
-ASSUMPTIONS = ["(2a)/(2b): leading whitespace of verbatim block lines and of inline-content continuation lines is ignored (statement)",
+ASSUMPTIONS = ["(1) mixed encodings: a lone CR is never directly followed by an LF-spelled break (that pair is one CRLF)", "(2a)/(2b): leading whitespace of verbatim block lines and of inline-content continuation lines is ignored (statement)",
                "(2b): every blank run expands to 1-4 columns"]
 
 JS = S.JS
@@ -127,6 +127,9 @@ def _le_run(params, values):
             s = p if isinstance(p, str) else values[p["v"]]
             base = base + s
             var = var + s
+    if norm_reference(var) != base:
+        # a lone CR directly followed by an LF-spelled break reads as ONE CRLF: not a re-encoding of `base`
+        return [], "assume: variant is not a re-encoding of the base document"
     try:
         t1 = md.parse(base)
         h1 = md.renderer.render(t1, md.options, {})
